@@ -168,6 +168,22 @@ func checkC16(c C16Case, o *Obs) error {
 		if p := catch(func() { regions.NewIndex(c.Starts, c.Ends) }); p == nil {
 			return fmt.Errorf("NewIndex with %d starts and %d ends did not panic", len(c.Starts), len(c.Ends))
 		}
+		// an absent list (nil) and an empty one are both lists of length 0
+		st, en := c.Starts, c.Ends
+		if len(st) == 0 {
+			st = nil
+		}
+		if len(en) == 0 {
+			en = nil
+		}
+		if len(st) == 0 || len(en) == 0 {
+			if p := catch(func() { regions.NewIndex(st, en) }); p == nil {
+				return fmt.Errorf("NewIndex with %d starts and %d ends (the empty list passed as nil) did not panic", len(st), len(en))
+			}
+			if p := catch(func() { regions.NewIndex(append([]int{}, st...), append([]int{}, en...)) }); p == nil {
+				return fmt.Errorf("NewIndex with %d starts and %d ends (the empty list passed as an empty non-nil slice) did not panic", len(st), len(en))
+			}
+		}
 		return nil
 	}
 	classifyC16(c, o)
